@@ -59,6 +59,7 @@ TRt2 == IsEvent("rt2") /\ LET e == Rec[l] IN
          /\ ReEncode(e.entry, e.form, e.b, e.dst)
          /\ obs'.ok = e.ok /\ obs'.bytes = e.bytes
          /\ e.ok => Bound(e)
+TSqrt == IsEvent("sqrt") /\ LET e == Rec[l] IN SqrtRatioCall(e.impl, e.num, e.den, e.flag, e.y)
 \* continue past a reported violation: install the logged result unchecked
 TForce == /\ l <= Len(Rec) /\ Has(Rec[l], "force") /\ l' = l + 1
           /\ LET e == Rec[l] IN
@@ -67,7 +68,7 @@ TForce == /\ l <= Len(Rec) /\ Has(Rec[l], "force") /\ l' = l + 1
              /\ obs' = [k |-> "forced"]
 
 TNext == TReset \/ TConst \/ TDecode \/ TEll \/ TH2c \/ TCtor \/ TConv \/ TRescale \/ TTorque
-         \/ TRt \/ TRt2 \/ TBin \/ TNeg \/ TDbl \/ TSum \/ TMul \/ TMsm \/ TEnc \/ TEncF \/ TEq \/ TIsId \/ THash \/ TForce
+         \/ TRt \/ TRt2 \/ TSqrt \/ TBin \/ TNeg \/ TDbl \/ TSum \/ TMul \/ TMsm \/ TEnc \/ TEncF \/ TEq \/ TIsId \/ THash \/ TForce
 TSpec == TInit /\ [][TNext]_tvars
 
 TraceAccepted ==
